@@ -201,3 +201,58 @@ Definition rm_entry_stable (em : list (list Z * list Z)) (rm : list (Z * list Z)
   | [] => false
   end.
 Definition rm_stable (em : list (list Z * list Z)) (rm : list (Z * list Z)) : bool := forallb (rm_entry_stable em rm) rm.
+
+(* ---- a decoder for terminated character references, parametrised by the name map ---------------------------
+   `&#D+;` and `&#xH+;` decode to their (unbounded) value as one code point, `&name;` (name a non-empty run of
+   [0-9a-zA-Z]) to what the map's replacement for that name decodes to (numeric references only inside a
+   replacement); everything else is literal text.  References to NUL decode to 0, as ReplaceEntities writes them. *)
+Definition null {A} (l : list A) : bool := match l with [] => true | _ => false end.
+Definition num_ref (l : list Z) : option (list Z * nat) :=        (* l: the text after "&#" *)
+  if hd_is 120 l then
+    let '(hs, rest) := span is_hex (tl l) in
+    if negb (null hs) && hd_is 59 rest then Some ([hex_num hs], (4 + length hs)%nat) else None
+  else
+    let '(ds, rest) := span is_digit l in
+    if negb (null ds) && hd_is 59 rest then Some ([dec_val ds], (3 + length ds)%nat) else None.
+Fixpoint dec_from (rf : list Z -> option (list Z * nat)) (l : list Z) (skip : nat) : list Z :=
+  match l with
+  | [] => []
+  | c :: t =>
+      match skip with
+      | S k => dec_from rf t k
+      | O => match rf l with
+             | Some (v, n) => v ++ dec_from rf t (Nat.pred n)
+             | None => c :: dec_from rf t 0
+             end
+      end
+  end.
+Definition ref_num (l : list Z) : option (list Z * nat) :=        (* l: the text from the '&' on *)
+  match l with
+  | a :: t => if (a =? 38) && hd_is 35 t then num_ref (tl t) else None
+  | [] => None
+  end.
+Definition ndec (l : list Z) : list Z := dec_from ref_num l 0.
+Definition ref_named (em : list (list Z * list Z)) (l : list Z) : option (list Z * nat) :=
+  match l with
+  | a :: t =>
+      if a =? 38 then
+        if hd_is 35 t then num_ref (tl t)
+        else
+          let '(name, rest) := span is_alnum t in
+          if negb (null name) && hd_is 59 rest then
+            match lookup_name em name with
+            | Some r => Some (ndec r, (2 + length name)%nat)
+            | None => None
+            end
+          else None
+      else None
+  | [] => None
+  end.
+Definition hdec (em : list (list Z * list Z)) (l : list Z) : list Z := dec_from (ref_named em) l 0.
+
+(* the reverse map writes references that decode back to the byte they stand for *)
+Definition rm_dec_ok (em : list (list Z * list Z)) (rm : list (Z * list Z)) : bool :=
+  forallb (fun e => match ref_named em (snd e) with
+                    | Some (v, n) => list_eqb v [fst e] && Nat.eqb n (length (snd e))
+                    | None => false
+                    end) rm.
